@@ -6,6 +6,12 @@
 #include <limits>
 
 namespace coloquinte {
+
+#ifdef COLOQUINTE_VERIF
+namespace verif {
+void (*solveHook)(const void *model, int phase) = nullptr;
+}  // namespace verif
+#endif
 NetModel::Parameters::Parameters() {
   netModel = NetModelOption::BoundToBound;
   approximationDistance = 10.0;
@@ -644,6 +650,9 @@ std::vector<float> NetModel::solveWithPenalty(
     const std::vector<float> &netPlacement,
     const std::vector<float> &placementTarget,
     const std::vector<float> &penaltyStrength, const Parameters &params) const {
+#ifdef COLOQUINTE_VERIF
+  verif::SolveScope verifScope(this);
+#endif
   MatrixCreator builder = MatrixCreator::create(
       *this, netPlacement, params.approximationDistance, params.netModel);
   builder.addPenalty(netPlacement, placementTarget, penaltyStrength,
